@@ -10,6 +10,9 @@
 (* instance's table pointer refers to.  Execution is abstracted to a       *)
 (* probe (an opcode that is valid only with an extra EIP) followed by a    *)
 (* loop whose every iteration polls the abort flag, as JUMP/JUMPI do.      *)
+(* Extra EIPs come in two flavours: "p0" adds an opcode (EIP-3855), "rp"    *)
+(* reprices existing constant-price opcodes in place (EIP-1884 on a        *)
+(* pre-Istanbul fork).                                                     *)
 (*                                                                         *)
 (* Deviation switches describe the mistakes the properties exclude:        *)
 (*   DevNoCopy      EnableEIP is applied to the shared table               *)
@@ -30,16 +33,17 @@ VARIABLES shared,   \* extra EIPs enabled in the fork's shared jump table (must 
           cancelled,\* instance -> Cancel(i) has been called
           res,      \* instance -> "" | "ok" | "invalid" | "cancelled"
           got,      \* instance -> leftover length of the stack it was handed (-1 before)
+          seen,     \* instance -> the extra EIPs in force in the table it executed its first instruction with ({"?"} before)
           after,    \* instance -> loop iterations started after Cancel(i)
           want, tx, \* chosen once: extra EIPs and transaction of each instance
           hist
 
-vars == <<shared, tref, own, pool, ph, steps, abort, cancelled, res, got, after, want, tx, hist>>
+vars == <<shared, tref, own, pool, ph, steps, abort, cancelled, res, got, seen, after, want, tx, hist>>
 
 Init ==
   /\ shared = {} /\ tref = [i \in Inst |-> "none"] /\ own = [i \in Inst |-> {}] /\ pool = <<>>
   /\ ph = [i \in Inst |-> "new"] /\ steps = [i \in Inst |-> 0] /\ abort = [i \in Inst |-> FALSE]
-  /\ cancelled = [i \in Inst |-> FALSE] /\ res = [i \in Inst |-> ""] /\ got = [i \in Inst |-> -1] /\ after = [i \in Inst |-> 0]
+  /\ cancelled = [i \in Inst |-> FALSE] /\ res = [i \in Inst |-> ""] /\ got = [i \in Inst |-> -1] /\ seen = [i \in Inst |-> {"?"}] /\ after = [i \in Inst |-> 0]
   /\ want \in [Inst -> WantSets] /\ tx \in [Inst -> Txs]
   /\ hist = <<>>
 
@@ -50,25 +54,25 @@ Aborted(i) == IF DevSharedAbort THEN \E j \in Inst : abort[j] ELSE abort[i]
 \* NewEVMInterpreter, as three steps
 Pick(i) ==
   /\ ph[i] = "new" /\ ph' = [ph EXCEPT ![i] = "picked"] /\ tref' = [tref EXCEPT ![i] = "shared"]
-  /\ H(i, "pick") /\ UNCHANGED <<shared, own, pool, steps, abort, cancelled, res, got, after, want, tx>>
+  /\ H(i, "pick") /\ UNCHANGED <<shared, own, pool, steps, abort, cancelled, res, got, seen, after, want, tx>>
 Copy(i) ==
   /\ ph[i] = "picked" /\ ph' = [ph EXCEPT ![i] = "copied"]
   /\ IF want[i] # {} /\ ~DevNoCopy
      THEN tref' = [tref EXCEPT ![i] = "own"] /\ own' = [own EXCEPT ![i] = shared]
      ELSE UNCHANGED <<tref, own>>
-  /\ H(i, "copy") /\ UNCHANGED <<shared, pool, steps, abort, cancelled, res, got, after, want, tx>>
+  /\ H(i, "copy") /\ UNCHANGED <<shared, pool, steps, abort, cancelled, res, got, seen, after, want, tx>>
 Enable(i) ==
   /\ ph[i] = "copied" /\ ph' = [ph EXCEPT ![i] = "ready"]
   /\ IF tref[i] = "own" THEN own' = [own EXCEPT ![i] = @ \cup want[i]] /\ UNCHANGED shared
      ELSE shared' = shared \cup want[i] /\ UNCHANGED own
-  /\ H(i, "enable") /\ UNCHANGED <<tref, pool, steps, abort, cancelled, res, got, after, want, tx>>
+  /\ H(i, "enable") /\ UNCHANGED <<tref, pool, steps, abort, cancelled, res, got, seen, after, want, tx>>
 
 \* entering the interpreter loop: a stack is taken from the pool (or allocated)
 Start(i) ==
   /\ ph[i] = "ready" /\ ph' = [ph EXCEPT ![i] = "running"]
   /\ IF pool = <<>> THEN got' = [got EXCEPT ![i] = 0] /\ UNCHANGED pool
      ELSE got' = [got EXCEPT ![i] = Head(pool)] /\ pool' = Tail(pool)
-  /\ H(i, "start") /\ UNCHANGED <<shared, tref, own, steps, abort, cancelled, res, after, want, tx>>
+  /\ H(i, "start") /\ UNCHANGED <<shared, tref, own, steps, abort, cancelled, res, seen, after, want, tx>>
 
 Return(i, leftover) == pool' = Append(pool, IF DevDirtyPool THEN leftover ELSE 0)
 
@@ -86,13 +90,14 @@ Step(i) ==
      THEN /\ res' = [res EXCEPT ![i] = "ok"] /\ ph' = [ph EXCEPT ![i] = "done"] /\ Return(i, 0)
           /\ steps' = [steps EXCEPT ![i] = @ + 1] /\ UNCHANGED after
      ELSE /\ steps' = [steps EXCEPT ![i] = @ + 1] /\ UNCHANGED <<res, ph, pool, after>>
+  /\ seen' = IF steps[i] = 0 /\ seen[i] = {"?"} THEN [seen EXCEPT ![i] = TableOf(i)] ELSE seen
   /\ H(i, "step") /\ UNCHANGED <<shared, tref, own, abort, cancelled, got, want, tx>>
 
 \* EVM.Cancel from another goroutine, at any moment
 Cancel(i) ==
   /\ AllowCancel /\ ~cancelled[i] /\ ph[i] \in {"ready", "running"}
   /\ abort' = [abort EXCEPT ![i] = TRUE] /\ cancelled' = [cancelled EXCEPT ![i] = TRUE]
-  /\ H(i, "cancel") /\ UNCHANGED <<shared, tref, own, pool, ph, steps, res, got, after, want, tx>>
+  /\ H(i, "cancel") /\ UNCHANGED <<shared, tref, own, pool, ph, steps, res, got, seen, after, want, tx>>
 
 Next == \E i \in Inst : Pick(i) \/ Copy(i) \/ Enable(i) \/ Start(i) \/ Step(i) \/ Cancel(i)
 Spec == Init /\ [][Next]_vars
@@ -105,7 +110,8 @@ Solo(i) == IF "p0" \in want[i] THEN "ok" ELSE "invalid"
 \* C17: shared tables are never written
 SharedImmutable == shared = {}
 \* C17/C16: the outcome of an instance is a function of its own configuration and transaction (and of its own Cancel)
-Isolation == \A i \in Inst : (ph[i] = "done" /\ res[i] # "cancelled") => res[i] = Solo(i)
+Isolation == \A i \in Inst : /\ (ph[i] = "done" /\ res[i] # "cancelled") => res[i] = Solo(i)
+                             /\ seen[i] \in {{"?"}, want[i]}     \* new opcodes and repriced opcodes alike: exactly its own extra EIPs
 Determinism == \A i, j \in Inst : (ph[i] = "done" /\ ph[j] = "done" /\ want[i] = want[j] /\ tx[i] = tx[j] /\ ~cancelled[i] /\ ~cancelled[j]) => res[i] = res[j]
 CancelOnlyOwn == \A i \in Inst : res[i] = "cancelled" => cancelled[i]
 \* C17: a stack handed out by the pool is empty
@@ -115,5 +121,5 @@ CancelStops == \A i \in Inst : after[i] <= 1 /\ (cancelled[i] /\ ph[i] = "done" 
 CancelLive == \A i \in Inst : (cancelled[i] /\ ph[i] = "running") ~> (ph[i] = "done")
 TypeOK == \A i \in Inst : steps[i] \in 0..MaxSteps
 
-Expect == [hist |-> hist, want |-> [i \in Inst |-> IF "p0" \in want[i] THEN 1 ELSE 0], tx |-> tx, res |-> res, cancelled |-> cancelled]
+Expect == [hist |-> hist, want |-> [i \in Inst |-> (IF "p0" \in want[i] THEN 1 ELSE 0) + (IF "rp" \in want[i] THEN 2 ELSE 0)], tx |-> tx, res |-> res, cancelled |-> cancelled]
 =============================================================================
